@@ -540,3 +540,17 @@ Definition show_build (g : grammar) (c : config) (mm : list ninfo) (tbl : list (
   | SyntaxErr p => "('syntax'," ++ show_nat p ++ ")"
   | Aborted w => "('abort'," ++ show_nat w ++ ")"
   end.
+
+(* assignment nodes occur only as direct children of common-rule nodes (what the grammar compiler
+   produces: an assignment belongs to the rule it is written in, its right-hand side is a match or a
+   rule reference) *)
+Fixpoint asg_placed (mm : list ninfo) (under_common : bool) (t : tree) : bool :=
+  match t with
+  | T _ _ _ _ => true
+  | NT nid kids =>
+    match nth nid mm IOther with
+    | IAsgn _ _ => under_common && forallb (asg_placed mm false) kids
+    | IRule RCommon _ _ => forallb (asg_placed mm true) kids
+    | _ => forallb (asg_placed mm false) kids
+    end
+  end.
